@@ -25,7 +25,7 @@ def parse_spec(path, spec=None, top=True, seen=None):
         elif cur[0] == 'contract':
             spec.contracts[cur[1]] = txt
             if top: spec.top_contracts.append(cur[1])
-        elif cur[0] == 'loop': spec.loops[(cur[1], int(cur[2]))] = txt
+        elif cur[0] == 'loop': spec.loops[(cur[1], int(cur[2]) if cur[2].isdigit() else cur[2])] = txt
         elif cur[0] == 'pre': spec.pre.append((ap, txt))
         elif cur[0] == 'code' and top: spec.code.append((ap, txt))
         elif cur[0] == 'replay': spec.replays[cur[1]] = txt
